@@ -125,6 +125,97 @@ def validate(traces, batch=1500, par=8):
     return verdicts, states, trans, errs
 
 
+def sched_history(tr):
+    """Scheduler-visible history of a recorded execution, in the vocabulary of SchedulerHist.tla."""
+    h, inl = [], set()
+    for e in tr["ev"]:
+        if e["e"] == "dispatch":
+            h.append(["disp", [e["n"]]])
+        elif e["e"] == "skip":
+            h.append(["skip", [e["n"]]])
+        elif e["e"] == "enter" and e["k"] == "sched":
+            inl.add(e["n"])
+        elif e["e"] == "exit" and e["n"] in inl:
+            h.append(["ie", [e["n"]]])
+            inl.discard(e["n"])
+        elif e["e"] == "wait_end":
+            h.append(["wc" if e["k"] == "thread" else "wa", sorted(e["s"])])
+        elif e["e"] == "return":
+            h.append(["ok", []])
+        elif e["e"] == "raise":
+            h.append(["raise", []])
+        elif e["e"] == "op_end":
+            break
+    return json.dumps(h)
+
+
+def conformance(results, limit, par=6):
+    """Code -> implementation-shaped model: every scheduler-visible history of the real code must be a
+    history of Scheduler.tla for the same configuration (computed by TLC through SchedulerHist.tla)."""
+    import sched_driver as sd
+
+    picked = []
+    for r in results:
+        c = r["cfg"]
+        if c["n"] <= 4 and (c.get("ops") or ["call"]) == ["call"] and not any(c.get("setup") or []) and r["traces"] and not r.get("error"):
+            picked.append(r)
+        if len(picked) >= limit:
+            break
+    if not picked:
+        return {"configs": 0, "code_histories": 0, "model_histories": 0, "drift": [], "drift_count": 0, "states": 0, "transitions": 0, "errors": []}
+    os.makedirs(common.CACHE, exist_ok=True)
+    batches = [picked[i::par] for i in range(par) if picked[i::par]]
+
+    def one(ib):
+        i, b = ib
+        path = os.path.join(common.CACHE, f"e1-hist-{os.getpid()}-{i}.json")
+        cfgs = [{"cid": r["cfg"]["cid"], "n": r["cfg"]["n"], "deps": sd.full_deps(r["cfg"]), "mc": r["cfg"]["mc"], "prio": r["cfg"]["prio"],
+                 "seq": r["cfg"]["seq"], "res": r["cfg"]["res"], "bad": r["cfg"].get("bad") or [], "off": sd.expected_off(r["cfg"])} for r in b]
+        with open(path, "w") as f:
+            json.dump({"cfgs": cfgs}, f)
+        try:
+            t = tlc.run_tlc("SchedulerHist", "SchedulerHist.cfg", env={"CFG_FILE": path}, workers=1, heap="3g", timeout=3600)
+        finally:
+            os.remove(path)
+        H = {}
+        for line in t["out"].splitlines():
+            line = line.strip()
+            if line.startswith('"HIST '):
+                d = json.loads(line[6:-1].encode().decode("unicode_escape"))
+                H.setdefault(d["c"], set()).add(json.dumps(d["h"]))
+        return H, t.get("distinct", 0), t.get("states", 0), None if tlc.tlc_ok(t) else t["out"][-1000:]
+
+    model, states, trans, errs = {}, 0, 0, []
+    with cf.ThreadPoolExecutor(par) as ex:
+        for H, s, t, err in ex.map(one, enumerate(batches)):
+            for k, v in H.items():
+                model.setdefault(k, set()).update(v)
+            states += s
+            trans += t
+            if err:
+                errs.append(err)
+    drift, ncode, seen_code = [], 0, {}
+    for r in picked:
+        cid = r["cfg"]["cid"]
+        for tr in r["traces"]:
+            h = sched_history(tr)
+            if h in seen_code.setdefault(cid, set()):
+                continue
+            seen_code[cid].add(h)
+            ncode += 1
+            if h not in model.get(cid, set()):
+                drift.append({"cfg": r["cfg"], "history": json.loads(h)})
+    model_only = sum(len(model.get(c, set()) - seen_code.get(c, set())) for c in model)
+    # where no two nodes share a compound priority the model is as deterministic as the code: the two sets must be equal
+    tiefree = [r for r in picked if len(set(sd.documented_cp(r["cfg"]))) == r["cfg"]["n"] and r["complete"]]
+    tf_model_only = [(r["cfg"], sorted(model.get(r["cfg"]["cid"], set()) - seen_code.get(r["cfg"]["cid"], set())))
+                     for r in tiefree if model.get(r["cfg"]["cid"], set()) - seen_code.get(r["cfg"]["cid"], set())]
+    return {"configs": len(picked), "code_histories": ncode, "model_histories": sum(len(v) for v in model.values()),
+            "model_only_histories": model_only, "tiefree_configs": len(tiefree),
+            "tiefree_model_only": len(tf_model_only), "tiefree_model_only_samples": [{"cfg": c, "histories": [json.loads(h) for h in hs[:2]]} for c, hs in tf_model_only[:3]],
+            "drift": drift[:5], "drift_count": len(drift), "states": states, "transitions": trans, "errors": errs[:2]}
+
+
 def slim_trace(t):
     return {k: t[k] for k in t if k not in ("anomalies",)}
 
@@ -199,6 +290,7 @@ def run(tier, seed, log=common.say):
     res["samples"] = [slim_trace(t) for t in traces[:: max(1, len(traces) // 3)][:3]]
     for s in res["samples"]:
         s.pop("cfg", None)
+    res["conformance"] = conformance(results, 500 if tier == "quick" else 6000)
     res["model"] = [f.result() for f in mfuts]
     pool.shutdown()
     res["wall"] = round(time.time() - t0, 1)
@@ -248,6 +340,8 @@ def report(prop, res):
         mach.append(f'validated {res["validation"]["validated"]} of {res["explore"]["distinct_traces"]} traces')
     if res["explore"]["error_count"]:
         mach.append(f'harness errors in {res["explore"]["error_count"]} configurations: {res["explore"]["errors"][:2]}')
+    if res["conformance"]["errors"]:
+        mach.append("TLC failed on SchedulerHist: " + res["conformance"]["errors"][0][-400:])
     if res["explore"]["anomaly_count"]:
         mach.append(f'controller anomalies: {res["explore"]["anomalies"][:3]}')
     invs = set(MODEL_INV.get(prop, []))
@@ -275,6 +369,8 @@ def report(prop, res):
         "exploration": {k: res["explore"][k] for k in ("configs", "runs", "complete_configs", "distinct_traces", "max_runs_per_config", "nondeterministic_replays")},
         "antecedent_counters": res["counters"],
         "violation_counts": {k: n for k, n in res["viol_counts"].items() if k.startswith(prop)},
+        "conformance_to_Scheduler_tla": {k: res["conformance"][k] for k in ("configs", "code_histories", "model_histories", "model_only_histories", "tiefree_configs", "tiefree_model_only", "drift_count", "states")},
+        "model_drift": res["conformance"]["drift"][:2],
         "engine_cached": bool(res.get("cached")),
     }
     assumptions = [
